@@ -56,6 +56,9 @@ pub fn run(items: Vec<OrchestrationPiece>, solver: PieceSolver, thread_count: us
 }
 
 fn run_internal(mut solver: PieceSolver, thread_id: usize, local: Arc<Mutex<Vec<OrchestrationPiece>>>, execution_state: Arc<Mutex<ExecutionState<OrchestrationPiece>>>) {
+    #[cfg(lbfs_torrent_bootstrap_verif)]
+    crate::verif_shim::trace::worker(thread_id);
+
     'outer: loop {
         let found = {
             let guard = local.try_lock();
